@@ -102,7 +102,12 @@ fn extract_host(req: &Request) -> S3Result<Option<String>> {
 }
 
 fn is_socket_addr_or_ip_addr(host: &str) -> bool {
-    host.parse::<SocketAddr>().is_ok() || host.parse::<IpAddr>().is_ok()
+    // an IPv6 address in a `Host` header is bracketed even without a port: `[::1]`
+    let bracketed_ipv6 = host
+        .strip_prefix('[')
+        .and_then(|h| h.strip_suffix(']'))
+        .is_some_and(|h| h.parse::<std::net::Ipv6Addr>().is_ok());
+    host.parse::<SocketAddr>().is_ok() || host.parse::<IpAddr>().is_ok() || bracketed_ipv6
 }
 
 fn convert_parse_s3_path_error(err: &ParseS3PathError) -> S3Error {
